@@ -95,6 +95,14 @@ func (c call) run() (barcode.Barcode, error) {
 		return renderFams[schemeFam[c.fam[:i]]].enc(c.s, p, &sc)
 	}
 	switch c.fam {
+	case "scale":
+		// s = "<family>:<content>", p = [width, height]: Scale of a freshly encoded source
+		i := strings.IndexByte(s, ':')
+		src, err := call{fam: s[:i], s: []byte(s[i+1:]), p: scaleSrcParams[s[:i]]}.run()
+		if err != nil {
+			return nil, err
+		}
+		return barcode.Scale(src, c.pi(0), c.pi(1))
 	case "qr":
 		return qr.Encode(s, qrLevels[c.pi(0)], qrModes[c.pi(1)])
 	case "dm":
@@ -121,6 +129,9 @@ func (c call) run() (barcode.Barcode, error) {
 	}
 	return nil, fmt.Errorf("unknown family %q", c.fam)
 }
+
+// scaleSrcParams: parameters of the sources of the "scale" calls.
+var scaleSrcParams = map[string][]int{"qr": {1, 0}, "dm": nil, "az": {33, 0}, "pdf": {1}, "c128": {1}, "ean": nil}
 
 func (c call) observeSafe() (obs string, bc barcode.Barcode) {
 	if p, w := Safely(func() {
@@ -313,6 +324,27 @@ func pairAlphabets(thorough bool) map[string][]call {
 			}
 		}
 	}
+	// Scale: the same source to sizes that share a width or a height but not the factor, exact multiples,
+	// the identity, and sizes that leave odd padding (anything keyed on one axis or memoised per size pair shows up)
+	for _, src := range []string{"qr:SCALE ME", "dm:scale me too", "az:scale"} {
+		var n int
+		switch src[:2] {
+		case "qr":
+			n = 21
+		case "dm":
+			n = 14
+		default:
+			n = 15
+		}
+		for _, d := range [][2]int{{n, n}, {2 * n, 2 * n}, {4*n + 3, 4*n + 3}, {4*n + 3, 2*n + 1}, {4*n + 3, 3*n + 2}, {2*n + 1, 4*n + 3}, {3 * n, 4*n + 3}, {n - 1, n}} {
+			add("scale", []byte(src), d[0], d[1])
+		}
+	}
+	for _, src := range []string{"c128:Ab1", "ean:1234567"} {
+		for _, d := range [][2]int{{200, 1}, {200, 30}, {300, 30}, {150, 30}, {201, 7}, {10, 10}} {
+			add("scale", []byte(src), d[0], d[1])
+		}
+	}
 	// linear families
 	for ck := 0; ck <= 1; ck++ {
 		for _, s := range []string{"A", "Ab1", "123456", "\x01x", fnc1 + "1234", "Hello World 0123456789", "ä"} {
@@ -394,7 +426,7 @@ func pairSweep(c *core.Ctx) {
 		Run(c, &core.Case{Fam: "pair", Ops: []string{p[0].String(), p[1].String()}})
 		Run(c, &core.Case{Fam: "pair", Ops: []string{p[1].String(), p[0].String()}})
 	}
-	c.R.Bound("pairs", fmt.Sprintf("all ordered pairs of inputs within each family alphabet (%d pairs over 10 families) plus %d QR cross-mode payload-bit collision pairs in both orders; second observation, first observation and the first barcode re-observed after the second call are compared with fresh-process observations", nPairs, len(coll)))
+	c.R.Bound("pairs", fmt.Sprintf("all ordered pairs of inputs within each family alphabet (%d pairs over 10 encoder families and Scale) plus %d QR cross-mode payload-bit collision pairs in both orders; second observation, first observation and the first barcode re-observed after the second call are compared with fresh-process observations", nPairs, len(coll)))
 	// determinism sweep: many short QR payloads, each repeated in place (equal-penalty masks, ties in searches)
 	reps := 6
 	var nDet int64
